@@ -200,10 +200,12 @@ class IH5MFRecord(IH5Record):
         # if a manifest exists for the current dataset,
         # copy its manifest to overwrite the fresh one of the merged container
         # and fix its user block
-        if self._manifest is not None:
+        # (the user block of an uncommitted patch does not link a manifest yet,
+        # the loaded manifest then belongs to the latest committed container)
+        ext = IH5UBExtManifest.get(ub)
+        if self._manifest is not None and ext is not None:
             # check that new userblock inherited the original linked manifest
-            ext = IH5UBExtManifest.get(ub)
-            assert ext is not None and ext.manifest_uuid == self.manifest.manifest_uuid
+            assert ext.manifest_uuid == self.manifest.manifest_uuid
             # overwrite the "fresh" manifest from merge with the original one
             self.manifest.save(self._manifest_filepath(file))
 
